@@ -62,12 +62,13 @@ theorem count_countable (l : Lang) (ms : List Member) (x : Member) (h : countabl
     countMethods l (ms ++ [x]) = countMethods l ms + 1 := by
   simp [count_append, countMethods, List.filter, h]
 
-/-- blank and comment lines never change the size measured for Python and Rust … -/
-theorem loc_ignores_noise (l : Lang) (hl : l ≠ .ts) (a : List LineKind) (k : LineKind) (hk : k ≠ .code) :
-    countLoc l (a ++ [k]) = countLoc l a := by
-  cases k <;> cases l <;> simp_all [countLoc, List.filter_append, List.filter] <;> rfl
-/-- … but they do for TypeScript (the size is the span of the class) -/
-theorem ts_loc_is_span (a : List LineKind) : countLoc .ts a = a.length := rfl
+/-- blank and comment lines never change the measured size, in any language and at any position -/
+theorem loc_ignores_noise (l : Lang) (a b : List LineKind) (k : LineKind) (hk : k ≠ .code) :
+    countLoc l (a ++ [k] ++ b) = countLoc l (a ++ b) := by
+  cases k <;> simp_all [countLoc, List.filter_append, List.filter] <;> rfl
+/-- finding F13a (before the repair): for TypeScript the size was the span of the class, so a blank line
+    inside a class changed it -/
+theorem F13a_witness : countLocOld .ts [.code, .blank, .code] = 3 ∧ countLoc .ts [.code, .blank, .code] = 2 ∧ countLocOld .ts [.code, .code] = 2 := by decide
 
 /-- **Language-specific overrides apply only to files of that language** -/
 theorem override_scoped (dM dL : Nat) (base : Section) (lang other : String) (o : Section) (h : (lang == other) = false) :
@@ -82,6 +83,6 @@ theorem override_applies (dM dL : Nat) (base o : Section) (lang : String) (m l :
 example : countMethods .py [.pub, .priv, .dunder, .ctor, .property, .static, .pub, .asyncPub] = 4 ∧
     countMethods .ts [.pub, .priv, .ctor, .property, .static] = 3 ∧ countMethods .rs [.ctor, .pub, .priv] = 2 ∧
     evaluate ⟨2, 10, true⟩ 3 11 true = [.methods 3 2, .lines 11 10, .keyword] ∧
-    countLoc .py [.code, .blank, .comment, .code] = 2 ∧ countLoc .ts [.code, .blank, .comment, .code] = 4 := by decide
+    countLoc .py [.code, .blank, .comment, .code] = 2 ∧ countLoc .ts [.code, .blank, .comment, .code] = 2 := by decide
 
 end ThaiLintModel.C16
